@@ -73,3 +73,10 @@ package mirror
 //@ func (*Conn).Send
 //@   names c b _
 //@   opt noverify syscall.Sendto
+
+// >>> field snapshots (govc -gen-names)
+//@ fields Conn family sotype proto fd raddr
+//@ fields IPv4 Version IHL TOS Length TTL Protocol
+//@ fields IPv6 Version TrafficClass FlowLabel PayloadLength NextHeader HopLimit
+//@ fields UDP SrcPort DstPort Length Checksum
+// <<< field snapshots
